@@ -229,7 +229,14 @@ func FuncKey(fn *ssa.Function) string {
 	if fn.Parent() != nil {
 		return FuncKey(fn.Parent()) + "$" + strings.TrimPrefix(fn.Name(), fn.Parent().Name()+"$")
 	}
-	return FuncPkgRel(fn) + "." + name
+	return keyPkg(FuncPkgRel(fn)) + "." + name
+}
+
+func keyPkg(rel string) string {
+	if rel == "." {
+		return "<root>"
+	}
+	return rel
 }
 
 // VTA returns the VTA call graph (seeded by CHA).
@@ -341,7 +348,7 @@ func DeclKey(p *packages.Package, fd *ast.FuncDecl) string {
 	if fd.Recv != nil && len(fd.Recv.List) == 1 {
 		name = "(" + recvString(fd.Recv.List[0].Type) + ")." + name
 	}
-	return Rel(p.PkgPath) + "." + name
+	return keyPkg(Rel(p.PkgPath)) + "." + name
 }
 
 func recvString(e ast.Expr) string {
